@@ -315,3 +315,72 @@ Proof.
   rewrite (e2e_data obs q' t' tid tpl recs db _ TO RO Htid Hd (tm_lookup_add_same _ _ _ _)).
   repeat split; reflexivity.
 Qed.
+
+(* ---- TCP: the two messages are well-framed, so any segmentation delivers exactly them ---- *)
+From Verif.Model Require Import Frame.
+From Verif.Proofs Require Import Frame_lemmas C11_lemmas.
+From Verif.Driver Require Import C11drv.
+
+Lemma wire20_wf_frame len t q obs sid sl body :
+  len mod 65536 = N.of_nat (length (wire20 len t q obs sid sl ++ body)) ->
+  wf_frame (wire20 len t q obs sid sl ++ body).
+Proof.
+  intros H. unfold wf_frame. rewrite <- (Nat2N.id (length _)), <- H. unfold wire20.
+  destruct (be2_cons 10) as (v0 & v1 & Ev). destruct (be2_cons len) as (l0 & l1 & El).
+  rewrite Ev, El. cbn [app]. unfold frame_len. rewrite <- El, bed_be. reflexivity.
+Qed.
+
+Lemma tpl_msg_frame obs q t tid tpl tb :
+  tpl_ok tpl = true -> tpl_msg obs q t tid tpl = Ok tb -> wf_frame tb.
+Proof.
+  intros TO H. destruct (tpl_ok_parts tpl TO) as (_ & _ & _ & Fs & _ & _).
+  unfold tpl_msg in H. destruct (tpl_set_shape tid tpl Fs) as [m ES].
+  assert (HI : SetB_lemmas.Inv (SetB.run new_set (tpl_ops tid tpl))) by (apply Inv_run, Inv_new).
+  destruct (create_msg_ok_shape _ _ _ _ _ HI H) as (Eb & Bl & Mx).
+  rewrite ES in Eb, Bl, Mx. cbn [s_len s_hdr] in Eb, Bl, Mx.
+  set (L := 16 + (4 + blen (tpl_buf tid tpl))) in *.
+  assert (Ew : tb = wire20 L t q obs 2 (4 + blen (tpl_buf tid tpl)) ++
+                    List.concat (map buf_of (s_recs {| s_hdr := be 2 2 ++ be 2 (4 + blen (tpl_buf tid tpl)); s_type := STemplate;
+                       s_rrecs := [TRec (u16 tid) (u16 (N.of_nat (length tpl))) (zero_els tpl) (tpl_buf tid tpl) m];
+                       s_len := 4 + blen (tpl_buf tid tpl) |}))).
+  { rewrite Eb. unfold msg_hdr, wire20. rewrite <- !app_assoc. reflexivity. }
+  rewrite Ew. apply wire20_wf_frame. rewrite <- Ew. fold (blen tb). rewrite Bl. apply N.mod_small. unfold L in *. lia.
+Qed.
+
+Lemma data_msg_frame obs q t tid recs db :
+  data_msg obs q t tid recs = Ok db -> wf_frame db.
+Proof.
+  intros H. unfold data_msg in H.
+  assert (HI : SetB_lemmas.Inv (SetB.run new_set (data_ops tid recs))) by (apply Inv_run, Inv_new).
+  destruct (create_msg_ok_shape _ _ _ _ _ HI H) as (Eb & Bl & Mx).
+  rewrite (data_set_shape tid recs) in Eb, Bl, Mx. cbn [s_len s_hdr] in Eb, Bl, Mx.
+  set (SL := 4 + fold_right (fun r a => data_len_v1 r + a) 0 recs) in *.
+  set (L := 16 + SL) in *.
+  match type of Eb with db = _ ++ _ ++ ?body =>
+    assert (Ew : db = wire20 L t q obs tid SL ++ body)
+      by (rewrite Eb; unfold msg_hdr, wire20; rewrite <- !app_assoc; reflexivity) end.
+  rewrite Ew. apply wire20_wf_frame. rewrite <- Ew. fold (blen db). rewrite Bl. apply N.mod_small. unfold L in *. lia.
+Qed.
+
+Theorem e2e_tcp obs q q' t t' tid tpl recs tb db tm segs :
+  tpl_ok tpl = true -> recs_ok tpl recs = true -> 256 <= tid < 65536 ->
+  tpl_msg obs q t tid tpl = Ok tb -> data_msg obs q' t' tid recs = Ok db ->
+  List.concat segs = tb ++ db ->
+  let st := fold_left (feed tmap msg c11_decode) segs (init tmap msg tm) in
+  r_out _ _ st =
+    [TemplateMsg (mkHdr (blen tb) (t mod 4294967296) (q mod 4294967296) (obs mod 4294967296)) tid tpl;
+     DataMsg (mkHdr (blen db) (t' mod 4294967296) (q' mod 4294967296) (obs mod 4294967296)) tid (map norm_rec recs)] /\
+  r_closed _ _ st = false.
+Proof.
+  intros TO RO Htid Ht Hd Hc.
+  pose proof (e2e_exchange obs q q' t t' tid tpl recs tb db tm TO RO Htid Ht Hd) as X.
+  assert (Fw : Forall wf_frame [tb; db]).
+  { constructor; [eapply tpl_msg_frame; eassumption|]. constructor; [eapply data_msg_frame; eassumption|constructor]. }
+  assert (Ec : List.concat segs = List.concat [tb; db]) by (cbn [List.concat]; rewrite app_nil_r; exact Hc).
+  pose proof (c11_tcp [tb; db] segs tm Fw Ec) as T. cbv zeta in T. cbv zeta.
+  cbn [deliver] in T. unfold c11_decode in T at 1.
+  destruct (decode_packet Strict registry tm tb) as [r1 tm1]. 
+  destruct (decode_packet Strict registry tm1 db) as [r2 tm2] eqn:D2.
+  destruct X as (-> & -> & ->).
+  unfold c11_decode in T. rewrite D2 in T. destruct T as (To & Tc & _). split; assumption.
+Qed.
